@@ -32,7 +32,19 @@ from .core import (
     z3_of,
 )
 
-REPO_PREFIXES = ["/repo/ceos_alos2/"]
+def _repo_prefixes():
+    """source directory of the package under verification: wherever `ceos_alos2` is imported from (normally /repo)"""
+    try:
+        import os
+
+        import ceos_alos2
+
+        return [os.path.dirname(os.path.abspath(ceos_alos2.__file__)) + "/"]
+    except Exception:  # pragma: no cover
+        return ["/repo/ceos_alos2/"]
+
+
+REPO_PREFIXES = _repo_prefixes()
 EXTRA_INTERPRETED_PREFIXES = []  # e.g. /verif/contracts
 
 
